@@ -55,10 +55,14 @@ def jobs(prop, tier, seed, scale=1.0):
     out = []
     i = 0
     # exhaustive: all sequences to depth D on nm machines, split by first op
-    for nm, depth in (((2, 3),) if q else ((2, 4), (3, 3))):
-        for first in range(len(alphabet(nm))):
+    deep = (not q) and prop == 'C02'
+    for nm, depth in (((2, 4), (3, 3)) if deep else ((2, 3),)):
+        na = len(alphabet(nm))
+        prefixes = [[a] for a in range(na)] if depth <= 3 else \
+            [[a, b] for a in range(na) for b in range(na)]
+        for pre in prefixes:
             out.append({'kind': 'hist', 'prop': prop, 'tier': tier, 'i': i, 'mode': 'exh',
-                        'nm': nm, 'depth': depth, 'first': first, 'seed': 0})
+                        'nm': nm, 'depth': depth, 'prefix': pre, 'seed': 0})
             i += 1
     nr = max(1, int((100 if q else 1000) * scale))
     for k in range(nr):
@@ -102,7 +106,7 @@ class Driver:
         return probe.pools(self.cluster)
 
     # ---- operations -------------------------------------------------
-    def apply(self, op):
+    def apply(self, op, last=False):
         from topsim.core.task import Task
         from topsim.core.instrument import Observation
         from topsim.core.machine import Machine
@@ -143,11 +147,11 @@ class Driver:
         self.post(op, before, after, raised, info)
         if any(v['clause'] == 'illegal_allocation_accepted' for v in self.viol[n0:]):
             return raised     # the model is meaningless from here on; the sequence stops
-        self.invariants(after)
+        self.invariants(after, counters=(kind == 'adv' or last))
         return raised
 
     # ---- oracles ------------------------------------------------------
-    def invariants(self, p):
+    def invariants(self, p, counters=True):
         allm = p['available'] + p['ingest'] + p['occupied']
         for v in p['idle'].values():
             allm = allm + v
@@ -158,6 +162,9 @@ class Driver:
         for mid in self.tasks:
             if mid not in busy:
                 self.violate('C02', 'running_machine_not_busy', machine=mid, op='history')
+        if not counters:
+            self._c19(p)
+            return
         # counters (to_df) at this quiescent point
         row = probe.cluster_row(self.cluster)
         true = {'available_resources': self.nm - len(self.tasks),
@@ -168,6 +175,9 @@ class Driver:
             if k in row and int(row[k]) != v:
                 self.violate('C02', 'counter_' + k, reported=int(row[k]), true=v, op='history')
         self.bump('c02_counter_evals')
+        self._c19(p)
+
+    def _c19(self, p):
         # C19: idle query
         idle = self.cluster.is_idle()
         self.bump('c19_evals')
@@ -346,8 +356,8 @@ def _cfg(nm, d):
 def run_sequence(nm, ops, cfgpath):
     drv = Driver(nm, cfgpath)
     drv.invariants(drv.snap())
-    for op in ops:
-        drv.apply(op)
+    for k, op in enumerate(ops):
+        drv.apply(op, last=(k == len(ops) - 1))
         if any(v['clause'] in ('illegal_allocation_accepted', 'partition') for v in drv.viol):
             break       # the model is no longer meaningful after an accepted illegal call
     return drv
@@ -367,9 +377,9 @@ def run_job(job, prop, case=None):
         elif job['mode'] == 'exh':
             nm = job['nm']
             al = alphabet(nm)
-            first = al[job['first']]
-            for rest in itertools.product(al, repeat=job['depth'] - 1):
-                seqs.append((nm, [first] + list(rest)))
+            pre = [al[k] for k in job['prefix']]
+            for rest in itertools.product(al, repeat=job['depth'] - len(pre)):
+                seqs.append((nm, pre + list(rest)))
         else:
             rng = random.Random(job['seed'])
             for _ in range(job['n']):
